@@ -45,3 +45,12 @@ Example C01_example :
   agg_keys [0%nat] rows = [["S"%string]] /\ agg_results [0%nat] rows ["S"%string] = 18 /\ agg_reporting [0%nat] rows ["S"%string] = 1
   /\ agg_results [0%nat; 2%nat] rows ["S"; "u"]%string = 13.
 Proof. vm_compute. auto. Qed.
+
+(* every unit exactly once, with exactly one category: the unit-table side (model of CombinedData.get_units, see C09) *)
+From Elex Require Import Model.Units Proofs.UnitsProofs.
+Theorem C01_partition : forall (p : params) (data : list drow) (feed : list frow),
+  NoDup (map d_id data) ->
+  NoDup (map ekey (unit_table p data feed)) /\
+  forall i, In i (map ekey (unit_table p data feed)) <-> In i (map d_id data) \/ In i (ids_of (unexpected data feed)).
+Proof. intros p data feed ND. split; [apply table_nodup; exact ND | intros i; apply table_members; exact ND]. Qed.
+Print Assumptions C01_partition.
